@@ -82,6 +82,10 @@ impl EventLog {
         let mut writer = self.writer.lock().expect("event log mutex");
         #[cfg(rip_verif)]
         rip_kernel::verif::point("log.locked");
+        #[cfg(rip_verif)]
+        if rip_kernel::verif::fail("log.append") {
+            return Err(io::Error::other("verif: injected log write failure"));
+        }
         let mut line = serde_json::to_string(event)
             .map_err(|err| io::Error::new(io::ErrorKind::InvalidData, err))?;
         // One write for the frame and its terminator: a line of BufWriter capacity or more bypasses the
